@@ -496,3 +496,48 @@ Proof.
   - intros [| | |]; vm_compute; reflexivity.
   - intros [| | |] [| | |]; vm_compute; reflexivity.
 Qed.
+
+(* ---------- _correct_samples: a computational-basis sample of (frame . psi) is a sample of psi xor-ed with the x record ---------- *)
+Fixpoint flipx (k : nat) (F : frame) (b : bits) : bits :=
+  match F with [] => b | p :: F' => flipx (S k) F' (if fst p then upd b k (negb (b k)) else b) end.
+Definition pm1 (s : G) : Prop := s = gone \/ s = gneg gone.
+Lemma pm1_mul : forall s t, pm1 s -> pm1 t -> pm1 (gmul s t).
+Proof. intros s t [ -> | -> ] [ -> | -> ]; unfold pm1; vm_compute; auto. Qed.
+Lemma opPf_amp : forall k p phi b, exists s, pm1 s /\
+  opPf k p phi b = gmul s (phi (if fst p then upd b k (negb (b k)) else b)).
+Proof.
+  intros k [[|] [|]] phi b; unfold opPf, opX, opZ; cbn [fst snd].
+  - destruct (upd b k (negb (b k)) k); [exists (gneg gone) | exists gone]; split; try (now right); try (now left); ring.
+  - exists gone; split; [now left | ring].
+  - destruct (b k); [exists (gneg gone) | exists gone]; split; try (now right); try (now left); ring.
+  - exists gone; split; [now left | ring].
+Qed.
+Lemma ff_amp : forall F k psi b, exists s, pm1 s /\ ff k F psi b = gmul s (psi (flipx k F b)).
+Proof.
+  induction F as [|p F IH]; intros k psi b; cbn [ff flipx].
+  - exists gone; split; [now left | ring].
+  - destruct (opPf_amp k p (ff (S k) F psi) b) as (s1 & H1 & E1). rewrite E1.
+    destruct (IH (S k) psi (if fst p then upd b k (negb (b k)) else b)) as (s2 & H2 & E2). rewrite E2.
+    exists (gmul s1 s2); split; [apply pm1_mul; assumption | ring].
+Qed.
+Lemma flipx_spec : forall F k b i,
+  flipx k F b i = if Nat.leb k i then xorb (b i) (fst (nth (i - k) F pI)) else b i.
+Proof.
+  induction F as [|p F IH]; intros k b i; cbn [flipx].
+  - destruct (Nat.leb k i); [|reflexivity]. destruct (i - k); cbn; now rewrite xorb_false_r.
+  - rewrite IH. destruct (Nat.leb_spec (S k) i) as [H|H].
+    + replace (Nat.leb k i) with true by (symmetry; apply Nat.leb_le; lia).
+      replace (i - k) with (S (i - S k)) by lia. cbn [nth].
+      destruct (fst p); [rewrite upd_diff by lia|]; reflexivity.
+    + destruct (Nat.leb_spec k i) as [H'|H'].
+      * assert (i = k) as Hik by lia; subst i. rewrite Nat.sub_diag. cbn [nth].
+        destruct (fst p); [rewrite upd_same; now destruct (b k) | now rewrite xorb_false_r].
+      * destruct (fst p); [rewrite upd_diff by lia|]; reflexivity.
+Qed.
+Lemma frame_amplitude : forall F psi b, exists s, pm1 s /\
+  sem_frame F psi b = gmul s (psi (fun i => xorb (b i) (fst (nth i F pI)))).
+Proof.
+  intros F psi b. unfold sem_frame. rewrite sem_frame_from_fast.
+  destruct (ff_amp F 0 psi b) as (s & Hs & E). exists s; split; [assumption|]. rewrite E. f_equal. f_equal.
+  apply functional_extensionality; intro i. rewrite flipx_spec. cbn [Nat.leb]. now rewrite Nat.sub_0_r.
+Qed.
